@@ -38,10 +38,29 @@ def run_shard(spec, acc):
             acc.evaluations += 1
     else:
         brokerwl.shard_broker(spec, acc, PROP, 'benign')
+        # the holdings report read between a portfolio construction and the next update (a rebalance that only looks)
+        import random
+        from qsmon import core, pcmwl
+        rng = random.Random(spec['rng'] + 99)
+        for i in range(6 if spec['tier'] == 'quick' else 300):
+            case = pcmwl.gen_case(rng)
+            case['via_qts'] = False
+            try:
+                pcmwl.run_case(case, acc, report_prop=PROP)
+            except core.Violation as v:
+                if v.prop == PROP:
+                    acc.violation(v, {'kind': 'pcm', 'case': case})
 
 
 def replay(case, acc):
-    if case.get('kind') == 'position':
+    if case.get('kind') == 'pcm':
+        from qsmon import core, pcmwl
+        try:
+            pcmwl.run_case(case['case'], acc, report_prop=PROP)
+        except core.Violation as v:
+            if v.prop == PROP:
+                acc.violation(v, case)
+    elif case.get('kind') == 'position':
         from qsmon import core
         core.guarded(PROP, acc, case, ladderwl.run_position_case, case, acc, PROP)
     else:
